@@ -5,7 +5,8 @@ Three exhaustive layers, each on the real parser/serialiser:
      document (multiple=False and True) and as forests of two roots;
  (2) single line: 10 line templates (TEXT value, unquoted / quoted parameter, URI, CATEGORIES, CAL-ADDRESS with CN,
      no-colon form, ALTREP, two parameters) x every string over a 14-symbol alphabet with |s| <= k, and typed lines over
-     value menus (all value types, default and alternate VALUE, known / unknown / custom TZID), inside VEVENT (lenient),
+     value menus (all value types, default and alternate VALUE, known / unknown / custom TZID), each also re-folded every
+     1/2/7/74 characters with space-only or tab-only folds and CRLF or LF endings, inside VEVENT (lenient),
      VTODO (strict) and an unknown component;
  (3) interaction: every ordered pair (thorough: triple) of a 48-line menu (repeated names, list accumulation, same name
      in different case, parameters on repeated properties) in each container.
@@ -246,6 +247,13 @@ def run_case(case):
         text = wrap(container, [TYPED[i]])
         outcome = judge(text, case, fails, False)
         nt = True
+    elif kind == "folded":
+        # "any folding": the whole document re-folded every j characters with ONE kind of fold whitespace and line ending
+        _, provider, container, i, ws, j, eol = case
+        lines = [f"BEGIN:{container}", TYPED[i], "SUMMARY:" + "long text " * 12, f"END:{container}"]
+        text = eol.join((eol + ws).join(ln[k:k + j] for k in range(0, len(ln), j)) for ln in lines) + eol
+        outcome = judge(text, case, fails, False)
+        nt = True
     else:
         _, provider, container, idx = case
         text = wrap(container, [MENU40[i] for i in idx])
@@ -294,6 +302,12 @@ def run(ctx):
             for cont in CONTAINERS:
                 for i in range(len(TYPED)):
                     yield ("typed", provider, cont, i)
+        for cont in CONTAINERS:
+            for i in range(len(TYPED)):
+                for ws in (" ", "\t"):
+                    for j in (1, 2, 7, 74):
+                        for eol in ("\r\n", "\n"):
+                            yield ("folded", "zoneinfo", cont, i, ws, j, eol)
 
     def gen_inter():
         for cont in CONTAINERS:
